@@ -152,7 +152,9 @@ theorem blockOK_init (c : Codec) {sym : Nat → Bytes} {k sbn : Nat} {D : Bytes}
   unfold Block.init at h
   split at h
   · simp at h; rw [← h]; exact hb
-  · dsimp only at h
+  · split at h
+    · simp at h
+    dsimp only at h
     split at h
     · rename_i hs
       simp at h; rw [← h]
@@ -195,6 +197,8 @@ theorem blockOK_push (c : Codec) {sch : Scheme} {sym : Nat → Bytes} {k e sbn :
     · simp at h
     · rename_i d hd
       have h1 := decOK_push c hc d esi (hb d hd)
+      split at h
+      · simp at h; rw [← h]; exact hb
       dsimp only at h
       split at h
       · simp at h; rw [← h]
